@@ -36,6 +36,9 @@ func (cache *dirCache) Store(target *core.BuildTarget, key []byte, files []strin
 	cacheDir := cache.getPath(target, key, "")
 	tmpDir := cache.getFullPath(target, key, "", "=")
 	cache.markDir(cacheDir, 0)
+	// The temporary entry is not always cacheDir + "=" (for compressed caches the "=" goes before
+	// the suffix), so protect it from the cleaner under its own name while it is being written.
+	cache.markDir(tmpDir, 0)
 	if err := fs.RemoveAll(cacheDir); err != nil {
 		log.Warning("Failed to remove existing cache directory %s: %s", cacheDir, err)
 		return
